@@ -1,3 +1,201 @@
-(* C23 — placeholder while the proofs are being written *)
-From Coq Require Import List ZArith Bool.
-Require Import MTX.Model.C23_RtpH264.
+(* C23 — RTP re-packetization is size-bounded and lossless.
+   Only statements here; every proof is `exact <lemma of Proofs/C23_*.v>`.
+
+   Modelled and proved: (1) the glue of subStreamFormat.writeUnitInner / initialize / newRTPEncoder
+   (Model/C23_RtpGlue.v: glue_write, generic in the packetizer) and (2) the H.264 packetizer of gortsplib
+   (Model/C23_RtpH264.v: h264_encode = rtph264.Encoder.Encode, decode = rtph264.Decoder.Decode).
+   All other formats (H.265, AV1, VP8, VP9, MPEG-4 Video, MPEG-1 Video, M-JPEG, Opus, MPEG-4 Audio, LATM,
+   MPEG-1 Audio, AC-3, G.711, LPCM, KLV, FLAC) are NOT covered by a theorem: for them the check evaluates the
+   boolean form of the property (Check/C23.v spec_fail) on the packets of the real encoder and the output of the
+   real decoder — differential only.
+
+   blen = length as Z. enc = (PayloadMaxSize, SSRC, next sequence number). The encoder leaves Timestamp = 0;
+   the glue adds rtpTimeOffset + uint32(PTS) (stamp). Preconditions are the encoder's own: PayloadMaxSize >= 3
+   (FU-A needs one byte of room; smaller values divide by zero in Go) and < 65536 (16-bit STAP-A size field;
+   the configuration caps udpMaxPayloadSize at 1472). *)
+From Coq Require Import List ZArith Bool Lia.
+Require Import MTX.Lib.IntWrap MTX.Model.C23_RtpH264 MTX.Model.C23_RtpGlue.
+Require Import MTX.Proofs.C23_RtpH264 MTX.Proofs.C23_RtpH264Seq MTX.Proofs.C23_RtpH264Rt MTX.Proofs.C23_RtpH264Rt2
+               MTX.Proofs.C23_RtpGlue MTX.Proofs.C23_RtpGlue2.
+Import ListNotations.
+Local Open Scope Z_scope.
+
+(* ---- size: every payload fits, for every access unit (no condition on the NAL units at all) ---- *)
+Theorem C23_size : forall e au pkts e',
+  3 <= e.(e_max) -> h264_encode e au = Ok (pkts, e') ->
+  forall p, In p pkts -> blen p.(p_payload) <= e.(e_max).
+Proof. exact h264_encode_size. Qed.
+Print Assumptions C23_size.
+
+(* the encoder does not fail (no division by zero, no index out of range) under its stated precondition *)
+Theorem C23_encode_total : forall e au,
+  3 <= e.(e_max) -> ~ In [] au -> exists pkts e', h264_encode e au = Ok (pkts, e').
+Proof. exact h264_encode_total. Qed.
+Print Assumptions C23_encode_total.
+
+(* ---- lossless: the decoder, in any clean state (no partial frame, not in Annex-B mode), fed the packets of
+   one unit stamped with any timestamp, says "more packets needed" for all but the last and returns exactly the
+   access unit at the last one, and is clean again.
+   nal_ok n: n non-empty, forbidden_zero_bit clear (first byte < 128), NAL type not 24..29 (the RTP-only types),
+   no start code 00 00 01 inside — what H.264 guarantees of a NAL unit; max_nalus = 50 and max_au_size = 8 MiB
+   are the decoder's limits. ---- *)
+Theorem C23_roundtrip : forall e au pkts e' d delta,
+  3 <= e.(e_max) < 65536 -> au <> [] -> Forall nal_ok au ->
+  blen au <= max_nalus -> au_size au <= max_au_size ->
+  h264_encode e au = Ok (pkts, e') -> clean d ->
+  exists d', decode_run d (map (stamp delta) pkts) = (repeat DMore (length pkts - 1) ++ [DOk au], d')
+             /\ clean d' /\ (1 <= length pkts)%nat.
+Proof. exact h264_roundtrip. Qed.
+Print Assumptions C23_roundtrip.
+
+(* all sequences of units through one encoder and one decoder: the decoder returns exactly the units, in order,
+   and never an error *)
+Theorem C23_roundtrip_seq : forall aus e pkss e' d deltas,
+  3 <= e.(e_max) < 65536 ->
+  Forall (fun au => au <> [] /\ Forall nal_ok au /\ blen au <= max_nalus /\ au_size au <= max_au_size) aus ->
+  length deltas = length aus ->
+  h264_encode_run e aus = Ok (pkss, e') -> clean d ->
+  dok_units (fst (decode_run d (stamp_units deltas pkss))) = aus
+  /\ ~ In DErr (fst (decode_run d (stamp_units deltas pkss)))
+  /\ clean (snd (decode_run d (stamp_units deltas pkss))).
+Proof. exact h264_roundtrip_run. Qed.
+Print Assumptions C23_roundtrip_seq.
+
+(* the precondition is necessary: the forbidden_zero_bit of a fragmented NAL unit is lost (FU-A has no room for
+   it), so such a unit does not come back *)
+Theorem C23_roundtrip_needs_forbidden_zero_bit :
+  exists e au pkts e', h264_encode e au = Ok (pkts, e') /\ 3 <= e.(e_max) < 65536 /\
+    fst (decode_run dec_init pkts) <> repeat DMore (length pkts - 1) ++ [DOk au].
+Proof.
+  exists (mkenc 4 7 0), [[129; 1; 2; 3; 4]]. eexists. eexists. split; [vm_compute; reflexivity|].
+  split; [cbn; lia|]. vm_compute. discriminate.
+Qed.
+Print Assumptions C23_roundtrip_needs_forbidden_zero_bit.
+
+(* ---- sequence numbers: consecutive mod 2^16, one SSRC, within a unit and across units ---- *)
+Theorem C23_seq_consecutive : forall e au pkts e',
+  0 <= e.(e_seq) < 65536 -> h264_encode e au = Ok (pkts, e') ->
+  (forall i d, (i < length pkts)%nat -> p_seq (nth i pkts d) = (e.(e_seq) + Z.of_nat i) mod 65536)
+  /\ e'.(e_seq) = (e.(e_seq) + Z.of_nat (length pkts)) mod 65536
+  /\ (forall p, In p pkts -> p.(p_ssrc) = e.(e_ssrc) /\ p.(p_ts) = 0).
+Proof. exact h264_encode_seq. Qed.
+Print Assumptions C23_seq_consecutive.
+
+Theorem C23_seq_consecutive_run : forall e aus pkss e',
+  0 <= e.(e_seq) < 65536 -> h264_encode_run e aus = Ok (pkss, e') ->
+  forall i d, (i < length (concat pkss))%nat ->
+    p_seq (nth i (concat pkss) d) = (e.(e_seq) + Z.of_nat i) mod 65536.
+Proof. exact h264_encode_run_seq. Qed.
+Print Assumptions C23_seq_consecutive_run.
+
+(* ---- the glue (any packetizer P/encode): a unit is re-encoded iff an encoder existed or some incoming payload
+   exceeds the maximum ---- *)
+Theorem C23_oversize_trigger : forall (P : Type) (encode : enc -> P -> res (list packet * enc) + unit)
+    max avail g pts inp decerr deliv g' out,
+  glue_write P encode max avail g pts inp decerr deliv = GOk g' out ->
+  has_enc g' = has_enc g || existsb (oversized max) inp.
+Proof. exact glue_trigger. Qed.
+Print Assumptions C23_oversize_trigger.
+
+(* which encoder, which offset, which packets: either nothing is touched (no encoder, nothing oversized), or the
+   unit is encoded by the existing encoder / by one created with the SSRC and sequence number of the first
+   oversized packet and offset = its timestamp - uint32(PTS), and every generated packet is stamped *)
+Theorem C23_glue_cases : forall (P : Type) (encode : enc -> P -> res (list packet * enc) + unit)
+    max avail g pts inp decerr deliv g' out,
+  glue_write P encode max avail g pts inp decerr deliv = GOk g' out ->
+  (g.(g_enc) = None /\ g' = g /\ out = inp /\ first_oversized max inp = None)
+  \/ (exists e0 off0, effective max avail g pts inp e0 off0 /\
+       ((deliv = None /\ out = [] /\ g' = mkg (Some e0) off0)
+        \/ (exists p pkts e', deliv = Some p /\ encode e0 p = inl (Ok (pkts, e'))
+                              /\ out = stamp_all off0 pts pkts /\ g' = mkg (Some e') off0))).
+Proof. exact glue_write_inv. Qed.
+Print Assumptions C23_glue_cases.
+
+(* forwarded packets are never oversized; an oversized packet of a format without encoder is dropped *)
+Theorem C23_passthrough : forall (P : Type) (encode : enc -> P -> res (list packet * enc) + unit)
+    max avail g pts inp decerr deliv g' out,
+  glue_write P encode max avail g pts inp decerr deliv = GOk g' out -> has_enc g' = false ->
+  out = inp /\ g' = g /\ forallb (fun p => negb (oversized max p)) out = true.
+Proof. exact glue_passthrough. Qed.
+Print Assumptions C23_passthrough.
+
+Theorem C23_no_encoder_drops : forall (P : Type) (encode : enc -> P -> res (list packet * enc) + unit)
+    max g pts inp deliv pkt,
+  g.(g_enc) = None -> first_oversized max inp = Some pkt ->
+  glue_write P encode max false g pts inp false deliv = GErr g.
+Proof. exact glue_no_encoder. Qed.
+Print Assumptions C23_no_encoder_drops.
+
+(* ---- timestamps (H.264 through the glue): every packet of a re-encoded unit carries offset + PTS mod 2^32; the
+   offset is fixed once an encoder exists; at creation it reproduces the oversized packet's own timestamp ---- *)
+Theorem C23_ts_offset : forall max avail g pts inp decerr deliv g' out,
+  h264_glue_write max avail g pts inp decerr deliv = GOk g' out -> has_enc g' = true ->
+  Forall (fun p => p.(p_ts) = wrapu32 (g'.(g_off) + wrapu32 pts)) out
+  /\ (has_enc g = true -> g'.(g_off) = g.(g_off))
+  /\ (has_enc g = false -> exists pkt, first_oversized max inp = Some pkt
+                                       /\ g'.(g_off) = wrapu32 (pkt.(p_ts) - wrapu32 pts)
+                                       /\ (0 <= pkt.(p_ts) < two32 -> wrapu32 (g'.(g_off) + wrapu32 pts) = pkt.(p_ts))).
+Proof. exact h264_glue_ts. Qed.
+Print Assumptions C23_ts_offset.
+
+(* ---- size and round trip through the glue ---- *)
+Theorem C23_glue_size : forall max avail g pts inp decerr deliv g' out,
+  3 <= max -> enc_max_ok max g -> Forall (fun p => 0 <= p.(p_seq) < 65536) inp ->
+  h264_glue_write max avail g pts inp decerr deliv = GOk g' out -> has_enc g' = true ->
+  Forall (fun p => blen p.(p_payload) <= max) out /\ enc_max_ok max g'.
+Proof. exact h264_glue_size. Qed.
+Print Assumptions C23_glue_size.
+
+Theorem C23_glue_roundtrip : forall max avail g pts inp decerr au g' out d,
+  3 <= max < 65536 -> enc_max_ok max g ->
+  h264_glue_write max avail g pts inp decerr (Some au) = GOk g' out -> has_enc g' = true ->
+  au <> [] -> Forall nal_ok au -> blen au <= max_nalus -> au_size au <= max_au_size -> clean d ->
+  exists d', decode_run d out = (repeat DMore (length out - 1) ++ [DOk au], d') /\ clean d' /\ (1 <= length out)%nat.
+Proof. exact h264_glue_roundtrip. Qed.
+Print Assumptions C23_glue_roundtrip.
+
+(* ---- non-vacuity ---- *)
+
+(* max = 10: two small NAL units in one STAP-A (9 bytes), an 11-byte unit in two FU-A fragments, a last
+   unit alone with the marker; sequence numbers wrap from 65535 to 0 *)
+Example C23_example_encode :
+  let e := mkenc 10 77 65535 in
+  let au := [[65; 1]; [65; 2]; [101; 1; 2; 3; 4; 5; 6; 7; 8; 9; 10]; [6; 9; 9]] in
+  Forall nal_ok au /\ au <> [] /\
+  h264_encode e au =
+  Ok ([ mkpkt 65535 0 false 77 [24; 0; 2; 65; 1; 0; 2; 65; 2];
+        mkpkt 0 0 false 77 [124; 133; 1; 2; 3; 4; 5; 6; 7; 8];
+        mkpkt 1 0 false 77 [124; 69; 9; 10];
+        mkpkt 2 0 true 77 [6; 9; 9] ], mkenc 10 77 3).
+Proof.
+  cbv zeta. split; [|split; [discriminate|vm_compute; reflexivity]].
+  repeat constructor; try (cbn; lia); try (intros [H1 H2]; cbn in H1, H2; lia).
+Qed.
+
+Example C23_example_roundtrip :
+  let e := mkenc 10 77 65535 in
+  let au := [[65; 1]; [65; 2]; [101; 1; 2; 3; 4; 5; 6; 7; 8; 9; 10]; [6; 9; 9]] in
+  match h264_encode e au with
+  | Ok (pkts, e') =>
+      (3 <=? length pkts)%nat && forallb (fun p => blen p.(p_payload) <=? 10) pkts
+      && (e_seq e' =? (65535 + Z.of_nat (length pkts)) mod 65536)
+      && match fst (decode_run dec_init (map (stamp 1234) pkts)) with
+         | outs => match rev outs with DOk [[65; 1]; [65; 2]; [101; 1; 2; 3; 4; 5; 6; 7; 8; 9; 10]; [6; 9; 9]] :: _ => true | _ => false end
+         end
+  | Panic => false
+  end = true.
+Proof. vm_compute. reflexivity. Qed.
+
+(* the glue: passthrough, then creation of the encoder from an oversized packet, then re-use *)
+Example C23_example_glue :
+  let small := mkpkt 10 5000 true 9 [65; 1; 2] in
+  let big := mkpkt 11 8000 true 9 [65; 1; 2; 3; 4; 5; 6; 7; 8; 9] in
+  let g0 := mkg None 0 in
+  h264_glue_write 8 true g0 100 [small] false (Some [[65; 1; 2]]) = GOk g0 [small]
+  /\ match h264_glue_write 8 true g0 3100 [big] false (Some [[65; 1; 2; 3; 4; 5; 6; 7; 8; 9]]) with
+     | GOk g1 out =>
+         has_enc g1 = true /\ g1.(g_off) = 4900 /\ map p_seq out = [11; 12] /\ map p_ts out = [8000; 8000]
+         /\ map p_ssrc out = [9; 9]
+     | _ => False
+     end.
+Proof. vm_compute. repeat split; reflexivity. Qed.
